@@ -101,7 +101,8 @@ CTOR = {    # model: ctorIds (RawVec lives in a private module and cannot be nam
     "Box#new_in": ("Box::new_in(7u32, &{b})", "box"),
     "Box#from_iter_in": ("Box::from_iter_in(0..3u32, &{b})", "boxslice"),
 }
-CTOR_SRC = {"String#from_str_in": ("String::from_str_in(&{s}, &{b})", "string")}
+CTOR_SRC = {"String#from_str_in": ("String::from_str_in(&{s}, &{b})", "string"),
+            "String#from_utf8_lossy_in": ("String::from_utf8_lossy_in({s}.as_bytes(), &{b})", "string")}
 PLAIN = {
     "chunk_capacity": "{b}.chunk_capacity()", "allocated_bytes": "{b}.allocated_bytes()",
     "allocated_bytes_including_metadata": "{b}.allocated_bytes_including_metadata()",
